@@ -57,6 +57,16 @@ func (h *VHist) vApplyImpl(op VOp) error {
 	case "batch", "txn":
 		_, err := h.applyWriteImpl(op)
 		return err
+	case "badbatch":
+		// a batch the store has to reject as a whole: its last entity carries a null reference value
+		ds := h.W.Dsm.GetDataset(h.DsName(op.DS))
+		if ds == nil {
+			return fmt.Errorf("no dataset %s", op.DS)
+		}
+		es, _ := h.ents(op.Ents)
+		bad := NewEntity(h.Curie("e9"), 0)
+		bad.References[h.Key("p")] = nil
+		return ds.StoreEntities(append(es, bad))
 	case "create":
 		_, err := h.W.Dsm.CreateDataset(h.DsName(op.DS), nil)
 		return err
